@@ -151,7 +151,7 @@ def e_case(c):
     if c.get("many"):
         # runs of 5000 and ~20000 split steps (total nonlinear phase 9.9 rad at phi_max = 2e-3 and 5e-4), no loss
         c = dict(c, N=256, phis=[2e-3, 5e-4], nl_target=9.9, mode="nlse", alpha=0.0, lead="none", logp=-0.5, L=10.0 + c["seed"] % 5, b3=0.0,
-                 b2=c["b2"] if abs(c["b2"]) >= 5 else 20.0, layout="1pol", kind="gauss-train", R=2.5e9, sps=16)
+                 b2=c["b2"] if abs(c["b2"]) >= 5 else 20.0, layout="1pol", kind="gauss-train", R=(5e9, 10e9)[c["seed"] % 2], sps=16)
     a, fs, rs = make_field(c)
     N = a.size
     if c.get("gvN") and N % c["sps"] == 0:
